@@ -356,7 +356,17 @@ def main():
     # 1 build harness + facts
     ok, msg = build_go(plugin)
     if not ok:
-        infra(msg)
+        # The correspondence cannot even be built against this tree: the property is no longer shown to
+        # hold for it (DESIGN §3 step 4c) — reported as a violation without a failing input.
+        print(msg[-4000:])
+        path = write_replay(plugin, None, seed, "the correspondence harness no longer builds against the tree",
+                            {"no_longer_checks": "correspondence (harness/%s does not compile against the repository)" % pid.lower(),
+                             "build_output": msg[-4000:]})
+        cov.update({"obligations": 1, "discharged": 0, "checker_cmd": "go test -c ./" + pid.lower(), "trusted_base": [],
+                    "explanation": "harness build failed"})
+        ev["violations"] = 1
+        print("VIOLATION property=%s replay=%s no-failing-input-found" % (pid, path))
+        finish(1)
     ok, facts = gen_facts(plugin)
     if not ok:
         infra(facts)
